@@ -115,6 +115,24 @@ func (h *harness) runParse(c *codec, in []byte, class string, w *worker) ([]byte
 		})
 		return nil, false
 	}
+	// a returned string is a value: it must not share memory with the caller's []byte (the caller
+	// may reuse its buffer); checked on a private copy of the input that is overwritten afterwards
+	if len(in) > 0 {
+		w.alias = append(w.alias[:0], in...)
+		var s3 string
+		if _, _, p3 := common.Catch(func() { s3 = c.parseSB(w.alias) }); !p3 {
+			for i := range w.alias {
+				w.alias[i] ^= 0xFF
+			}
+			if s3 != s1 {
+				h.viol(c.name+"ParseToString|result-aliases-input|"+class, str, func() (string, any, string) {
+					return fmt.Sprintf("%sParseToString([]byte(%q)) returned a string that changed to %q when the caller overwrote its input buffer", c.name, in, s3), cs(nil),
+						fmt.Sprintf("func TestReplay(t *testing.T) { b := []byte(%q); s := strz.%sParseToString(b); want := strings.Clone(s); for i := range b { b[i] ^= 0xFF }; if s != want { t.Fatalf(\"result changed to %%q\", s) } }", in, c.name)
+				})
+				return nil, false
+			}
+		}
+	}
 	return out, true
 }
 
